@@ -42,6 +42,7 @@ partial def render : V → String
   | .bytes b => "b" ++ hexOrDash b
   | .arr xs => ",".intercalate (s!"A{xs.length}" :: xs.map render)
   | .map kvs => ",".intercalate (s!"M{kvs.length}" :: (sortKV kvs).flatMap (fun (k, v) => [render k, render v]))
+  | .tagged t v => s!"T{t}," ++ render v
 
 def parseHexTok (s : String) : Option Bytes := if s == "-" then some [] else bytesOfHex s
 
@@ -68,6 +69,9 @@ partial def parseV : List String → Option (V × List String)
       | none => none
     | 'M' => match body.toNat? with
       | some n => (parseKVs n rest).map (fun (xs, r) => (.map xs, r))
+      | none => none
+    | 'T' => match body.toNat? with
+      | some t => (parseV rest).map (fun (v, r) => (.tagged t v, r))
       | none => none
     | _ => none
 partial def parseVs : Nat → List String → Option (List V × List String)
